@@ -97,6 +97,9 @@ def handle : Handler
         if e = 2047 then some [.err "invalid"]
         else some (outQ (set_d 1 s e f (heap1 n0 d0) 1))
       else none
+  | "mpq_set_f", [.num n0, .num d0, .num sg, .vec l, .num e] =>
+      some (outQ (set_f 1 (sg < 0) (val l) e (heap1 n0 d0) 1))
+  | "mpq_get_d", [.num n, .num d] => some [natTok (get_d 1 (heap1 n d))]
   | _, _ => none
 
 end Mpir.Ops.Mpq
